@@ -1,8 +1,11 @@
 #!/bin/sh
 # tools/matrix.sh [glob] : detection matrix of the seeded changes kept under /verif/seeded (default all; e.g. 'C*-r3*')
+# runs ${PAR:-5} seeds at a time
 cd /verif
-for d in seeded/${1:-C*-*}/; do
-  n=$(basename $d)
+one() {
+  d=$1; n=$(basename $d)
   out=$(tools/seedall.sh /verif/$d/patch.diff 2>&1 | grep -E "^\S+: \[|PATCH DOES NOT|CHECKER-FAILURE" | sed -E 's/^[^[]*\[([A-Za-z0-9]+)\].*/\1/' | sort -u | tr '\n' ' ')
   echo "$n: ${out:-MISSED}"
-done
+}
+if [ "$1" = "--one" ]; then one "$2"; exit; fi
+ls -d seeded/${1:-C*-*}/ | xargs -P ${PAR:-5} -n 1 tools/matrix.sh --one | sort
